@@ -63,6 +63,12 @@ CLAIMED = {
  "C08": ("overflow taint + monotone-composition lattice + structural relation of fill/refill widths (E6)",
          "No integer product/shift of total/current/refill anywhere in the percentage path; negativity guard before int64->uint; every piece of the helper non-decreasing in current, full width at/after total, zero for total 0; wrapper rounds; filler relates filled and refill widths without further adjustment and accounts exactly the cells it appends; SetRefill caps at current.",
          NOTE + "Rounding to the nearest cell and the +-1 rune tolerance are arithmetic facts assumed, not decided.", "DESIGN.md §4 C08"),
+ "C19": ("wrapper-transparency rules (E7) on SSA paths + method-set facts from go/types",
+         "Each forwarding method makes exactly one wrapped call with its argument passed through, returns (n, err) unchanged and accounts n exactly once on every path (timed Ewma flavour for the ewma proxies); constructors offer WriteTo/ReadFrom exactly on returns dominated by the successful assertion on the caller's value and pick the ewma flavour from the flag, which is len(ewmaDecorators) != 0; Close is promoted from the embedded interface; closers wrap or return the argument itself; the no-op closer preserves ReaderFrom. With C09 this is close to the whole property.",
+         NOTE + "io.NopCloser is trusted; the bar-side counting rules are C09.", "DESIGN.md §4 C19"),
+ "C20": ("table agreement (E9) + divisor guards and overflow taint (E6) + estimator conservation by path enumeration",
+         "Unit chosen on every path of both size formats is the greatest threshold reached, suffix is that unit's name, tables are siblings; no integer product in the percentage path; every float division has a non-zero divisor on every path; each EwmaUpdate conserves time (carry or add-and-reset, siblings agree); samples reach every estimator through the recursive unwrap; wrappers implement Unwrap; elapsed/average speed freeze after completion; h/m/s components are (d/unit)%60.",
+         NOTE + "Read-back accuracy of printed numbers and printf verb handling are value-level and not decided.", "DESIGN.md §4 C20"),
 }
 PENDING_REASON = "check not built yet (DESIGN.md §7: a property is claimed only once its rules are built and silent on the repaired tree)"
 NA = {}
